@@ -5,7 +5,7 @@ from __future__ import annotations
 import random
 from fractions import Fraction
 
-from pint.errors import DimensionalityError
+from pint.errors import DefinitionSyntaxError, DimensionalityError
 
 from .. import covers, regs
 from ..runner import Case
@@ -218,13 +218,13 @@ def h_pairs(eng, pairs):
             eng.prove(ureg.Quantity(x, u).is_compatible_with(v) == same, f"pair-spelled-compat:{u}->{v}")
             try:
                 eng.prove(ureg.Quantity(x, u).check(ureg.get_dimensionality(v)) == same, f"pair-spelled-check:{u}->{v}")
-            except AssertionError:
+            except (AssertionError, DefinitionSyntaxError):
                 # known finding K16: get_dimensionality / get_base_units / get_compatible_units /
                 # Quantity.check read a string without the registry's preprocessors, so the
                 # symbol '%' reaches the expression parser as an operator
                 if "%" not in v:
                     raise
-                eng.fail("pair-spelled-check:percent-sign-raises-AssertionError", stop=False)
+                eng.fail("pair-spelled-check:percent-sign-not-preprocessed", stop=False)
             continue
         u, v = item
         same = inf[u].dims == inf[v].dims
